@@ -7,12 +7,12 @@ ROOT = os.path.dirname(os.path.dirname(os.path.abspath(__file__)))
 # id -> (level category, technique, level text, level note, design ref)
 CHECKS = {
  "C01": ("exploration",
-   "property-based testing (proptest, shrinking) with an independent layout-table codec as oracle; route-vs-route differential; libFuzzer round-trip target in thorough",
+   "property-based testing (proptest, shrinking) with an independent layout-table codec as oracle; route-vs-route differential; decode-side round trip of verbatim wire bytes (proptest, and coverage-guided libFuzzer+ASan target c01_wire in thorough)",
    "Generated logical messages (all header fields from boundary/byte-distinct/uniform mixtures, payload lengths 0..64 KiB plus 4 MiB spot cases, every body-capacity relation) are emitted through every emission route and parsed back through every parser; every byte is compared with an oracle written from the REPE layout table and validated against the C++/Glaze fixtures. Exploration, not proof: sampled inputs, exhaustive only over routes.",
    "Trusts the harness's own 48-byte layout table (cross-checked against interop/fixtures) and proptest's generators.",
    "DESIGN.md §4 C01"),
  "C02": ("exploration",
-   "property-based testing + bounded-exhaustive boundary cross product with a u128 reference parser as oracle; child-process isolation to observe aborts; libFuzzer (ASan) parse target in thorough",
+   "property-based testing + bounded-exhaustive boundary cross product with a u128 reference parser as oracle; child-process isolation to observe aborts; coverage-guided libFuzzer+ASan target c02_bytes (verbatim bytes into every parser and reader, same oracle) in thorough",
    "Arbitrary byte strings, structured mutations of valid frames (every truncation point), and the exhaustive cross product of boundary values for the three 64-bit length fields (incl. wrapping sums and unallocatable sizes) are fed to all 5 slice parsers and all 4 stream readers; never panic/abort, Ok iff the reference parser says a whole consistent frame is present, payload identical to the input bytes, exactly one frame consumed.",
    "Stream-reader cases keep each declared payload <= 16 MiB or >= 2^62 (the property's own memory-independence restriction); aborts are observed as child signal exits.",
    "DESIGN.md §4 C02"),
@@ -29,11 +29,11 @@ CHECKS = {
  "C09": ("exploration",
    "property-based testing of the raw /_svs/open|next|cancel exchange against the producer's logical bytes (round trip, with zstd decode), boundary-residue payload lengths, injected producer failures",
    "For generated chunk sizes, payload lengths at every chunk-boundary residue, channel depths 0..8, both compression settings and all five producer kinds, the concatenated pulled chunks must equal the producer's bytes, exactly the final chunk carries the end marker, an empty uncompressed payload is one empty final chunk, next after end/cancel/unknown id errors, and an injected producer failure surfaces as an error with no end marker and only a prefix delivered.",
-   "chunk_bytes >= 1; chunk sizing itself (local engine policy) not asserted. Puller-level sub-checks over transports are added by c09_net.",
+   "chunk_bytes >= 1; chunk sizing itself (local engine policy) not asserted. The puller-level sub-check (c09_net) runs the blocking, async and WebSocket pullers against the same producers over loopback.",
    "DESIGN.md §4 C09"),
  "C05": ("fault_enumeration",
    "generated fault/schedule scenarios (proptest) against scripted peers with tuned socket buffers; byte-exact stream-grammar oracle over the captured connection bytes",
-   "For concurrent writers (2..32, payloads straddling 8191/8192/8193/65535/65536/1-3 MiB) on all three clients, for the blocking client's write timeout against a stalled peer, for async/WebSocket calls abandoned mid-send, and for Server/AsyncServer write timeouts against a stalled reader, the captured byte stream must be whole images of distinct issued frames followed by at most one proper prefix and nothing after it. The WebSocket-server writers are covered by c05_ws.",
+   "For concurrent writers (2..32, payloads straddling 8191/8192/8193/65535/65536/1-3 MiB) on all three clients, for the blocking client's write timeout against a stalled peer, for async/WebSocket calls abandoned mid-send, and for Server/AsyncServer write timeouts against a stalled reader, the captured byte stream must be whole images of distinct issued frames followed by at most one proper prefix and nothing after it. On the WebSocket server (inline and off-reader responses, handler-pushed notifies and broadcasts from another thread, stalled peer, outbound capacities 1..1024) every message the peer receives must be exactly one frame and the byte image of one issued message.",
    "Timing only selects which side of a race occurs; the oracle is timing-free. Payloads up to 12 MiB.",
    "DESIGN.md §4 C05"),
  "C06": ("fault_enumeration",
@@ -42,12 +42,12 @@ CHECKS = {
    "Watchdog 10 s; either outcome accepted in a race; answered calls may fail after RST.",
    "DESIGN.md §4 C06"),
  "C07": ("exploration",
-   "property-based differential testing: owned vs borrowed vs context dispatch, with vs without middleware, shuffled registration programs; independent RFC 6901 tokenizer and prefix predicate as oracle for mounts",
+   "property-based differential testing: owned vs borrowed vs context dispatch, with vs without middleware, shuffled registration programs; independent RFC 6901 tokenizer and prefix predicate as oracle for mounts; coverage-guided libFuzzer twin of the mount check (c07_mounts) in thorough",
    "Every built-in handler kind x body-format code x body shape is dispatched through handle / handle_with_ctx / handle_view behind 0..3 forwarding middlewares registered at shuffled positions and must give the same normalised response and handler observations as the middleware-free router, with each middleware running exactly once; recording struct and registry mounts at generated roots must be reached iff the path equals the root or extends it at '/', an exactly registered path wins, and the struct sees exactly the independent tokenizer's reference tokens for depths 0..40 (incl. 15/16/17).",
    "Malformed escapes and trailing-slash roots are outside the quantifier; registry/struct mount overlap precedence is not asserted.",
    "DESIGN.md §4 C07"),
  "C08": ("exploration",
-   "property-based testing generic over the element type: bulk-vs-serde byte identity, cross-decoding round trips on raw bit patterns, streaming-vs-buffered differential, exhaustive (type x query length x misalignment) grid through the borrowing route with pointer-provenance checks; libFuzzer (ASan) target on the borrowing decoder in thorough",
+   "property-based testing generic over the element type: bulk-vs-serde byte identity, cross-decoding round trips on raw bit patterns, streaming-vs-buffered differential, exhaustive (type x query length x misalignment) grid through the borrowing route with pointer-provenance checks; coverage-guided libFuzzer+ASan twin of the same check (c08_slices) in thorough",
    "For 16 element types and slices built from raw generated bits, the bulk body must equal the serde body byte-for-byte (len>0), each decoder must read the other encoder's output bit-for-bit (every len incl. 0), the streaming writers must frame identically to the builders, the aligned form must yield the same bits through a with_typed_slice_ref route at every (query length 0..64, buffer misalignment 0..7) with aligned payloads borrowed and never a misaligned borrow, and wrong element types/formats must be rejected.",
    "u128/i128/half floats only on bulk-only clauses; borrowing observed via the address handed to the route closure.",
    "DESIGN.md §4 C08"),
@@ -57,7 +57,7 @@ CHECKS = {
    "Crash points are the verif-hooks probes on the commit path plus unhooked SIGKILLs; power-loss durability of sync_all is not observable.",
    "DESIGN.md §4 C10"),
  "C11": ("exploration",
-   "model-based testing: bounded-exhaustive operation sequences plus proptest random histories against a u128 reference model checked after every step",
+   "model-based testing: bounded-exhaustive operation sequences plus proptest random histories against a u128 reference model checked after every step; coverage-guided libFuzzer twin (c11_flow) in thorough",
    "All operation sequences up to the tier's length over a 15-operation small-scope alphabet (exhaustive) and random histories up to 200 ops over 64-bit values with hostile acks run against TransferControl; offsets(), cancel state and the credit predicate (probed in the promised direction) must match the model after every step; a documented-loop producer is simulated under hostile acks.",
    "Offsets <= 2^63 and chunk lengths <= 2^48 (property's bounds). Sequential probing only; blocking/wake-up behaviour is C12.",
    "DESIGN.md §4 C11"),
@@ -67,12 +67,12 @@ CHECKS = {
    "Real OS scheduling; the lock-step model-checking clause of the quantifier is outside this technique (DESIGN.md §9).",
    "DESIGN.md §4 C12"),
  "C13": ("exploration",
-   "model-based testing: bounded-exhaustive push/resume/advance/cancel sequences x capacities plus proptest random histories against a harness-kept chunk list",
+   "model-based testing: bounded-exhaustive push/resume/advance/cancel sequences x capacities plus proptest random histories against a harness-kept chunk list; coverage-guided libFuzzer twin (c13_ring) in thorough",
    "After every step the retained ring must be a byte-identical contiguous suffix of everything pushed, bounded by capacity (or a single chunk); request_resume acceptance is predicted exactly; an accepted resume's tail starts at the offset and ends at the last byte pushed; peer installed; ResumeReady delivered exactly once; advance clears.",
    "Chunks pushed contiguously (documented producer contract). Eviction tightness not demanded.",
    "DESIGN.md §4 C13"),
  "C14": ("exploration",
-   "model-based testing (serde_json tree + callable map with independent RFC 6901 resolution), small-scope exhaustive + proptest histories, direct-vs-mounted differential, Wing-Gong linearizability search for concurrent histories",
+   "model-based testing (serde_json tree + callable map with independent RFC 6901 resolution), small-scope exhaustive + proptest histories, direct-vs-mounted differential, Wing-Gong linearizability search for concurrent histories; coverage-guided libFuzzer twin of the sequential model check (c14_registry) in thorough",
    "Histories of registrations, merges, reads, writes and calls over escaped/empty/array/deep pointers run on two registries (direct dispatch and through Router::with_registry under generated prefixes, alternating owned and borrowed dispatch); outcome class, full tree and callable invocation log (exactly once, exact body) compared with the model after every op; concurrent 4x4 request histories must be linearizable including the final tree.",
    "Only documented registration shapes are generated; non-canonical array indices are treated as unspecified; acknowledgement contents not pinned.",
    "DESIGN.md §4 C14"),
@@ -92,7 +92,7 @@ CHECKS = {
    "Limits >= 1 KiB (room for the error reply).",
    "DESIGN.md §4 C17"),
  "C18": ("exploration",
-   "model-based testing: bounded-exhaustive sequences (3 peers x 3 keys) + proptest histories against a map model, Wing-Gong linearizability search for concurrent histories",
+   "model-based testing: bounded-exhaustive sequences (3 peers x 3 keys) + proptest histories against a map model, Wing-Gong linearizability search for concurrent histories; coverage-guided libFuzzer twin of the sequential model check (c18_peers) in thorough",
    "After every step get/get_by/key_for/aliases_for/len/peers for every peer and key must equal the model; every broadcast must deliver exactly one notify (path, body, format) to each present peer and report one result per present peer, with refusing sinks; concurrent 4-thread histories plus a final full observation must be linearizable.",
    "insert only for absent ids (documented precondition). Interleavings sampled; each observed history decided exhaustively.",
    "DESIGN.md §4 C18"),
@@ -148,8 +148,8 @@ def main():
              "serves_properties": [c["property_id"] for c in checks],
              "kind_free_text": "Rust binary: proptest strategies with shrinking, bounded-exhaustive enumerations, scripted TCP/WebSocket peers, child-process isolation, evidence/replay writer"},
             {"name": "libfuzzer-targets", "path": "/verif/fuzz",
-             "serves_properties": [],
-             "kind_free_text": "cargo-fuzz (libFuzzer + ASan) targets with the semantic oracle inside the target; run by the thorough tier"},
+             "serves_properties": ["C01", "C02", "C07", "C08", "C11", "C13", "C14", "C18"],
+             "kind_free_text": "cargo-fuzz (libFuzzer + ASan), one binary: byte-driven builders produce cases of the same types over the same domains as the proptest strategies and call the same check functions (semantic oracle inside the target); fuzz/run_campaign.sh is run by ./check <ID> thorough after the proptest tiers and folds its measured counts into the evidence file"},
         ],
         "checks": checks,
         "not_applicable": [{"property_id": p, "reason": NOT_YET} for p in ALL if p not in CHECKS],
